@@ -162,6 +162,9 @@ def generate(run_seed, tier):
         case["distance"] = rng.choice([None, None, "l1", "directional", "directional"])
         # map-like coordinates: far from the origin relative to their spread (any shortcut through |v|^2 - 2v.c + |c|^2 cancels)
         case["offset"] = rng.choice([0.0, 1e3, 1e6, 1e8, 1e8])
+        # candidates on a coarse grid: co-located candidates are exactly equidistant from every voter (either order is legal,
+        # leaving one of them off the ballot is not)
+        case["grid"] = rng.random() < 0.15
     if model == "ClusteredSpatial":
         per = [rng.randint(0, 30) for _ in cands]
         if sum(per) == 0:
@@ -615,6 +618,11 @@ def execute_spatial(case, trace):
             r = tuple(next(iter(s)) for s in b.ranking)
             got[r] = got.get(r, 0) + int(b.weight)
         probes["voters_checked"] = len(vpos) - skipped
+        short = [r for r in got if sorted(r) != sorted(cpos)]
+        if short:
+            violations.append({"clause": "complete-ranking", "message": f"{model}: ballot {short[0]} does not rank each of the candidates {sorted(cpos)} exactly once "
+                                                                      f"({skipped} voters have equidistant candidates; a tie may be broken either way but not dropped)",
+                               "sig": {"kind": "S", "model": model, "clause": "complete-ranking"}})
         if (got != exp) if skipped == 0 else any(got.get(r, 0) < k for r, k in exp.items()):
             diff = [r for r in set(got) | set(exp) if got.get(r, 0) != exp.get(r, 0)][:3]
             violations.append({"clause": "distance-order", "message": f"{model}: ballots are not the candidates sorted by increasing distance from the sampled voter positions; e.g. {[(r, got.get(r, 0), exp.get(r, 0)) for r in diff]} (ranking, profile weight, expected)",
